@@ -282,6 +282,10 @@ def gen_larr(tier):
             for rk in CLASSES:
                 for nr in ((1, 3) if rk in LISTY else (1,)):
                     yield {"kind": "larr", "op": op, "shape": sh, "R": rk, "nr": nr, "vals": DEFAULT_VALS, "L": "ndarray", "nl": 1}
+                    if sh in ("v2", "v3", "v4", "v6", "m22", "m33"):
+                        # the same numbers as a plain Python list / tuple (NumPy is then not involved in the dispatch at all)
+                        for cont in ("list", "tuple"):
+                            yield {"kind": "larr", "op": op, "shape": sh, "R": rk, "nr": nr, "vals": DEFAULT_VALS, "L": cont, "nl": 1}
 
 
 def _larr(case):
@@ -295,12 +299,18 @@ def _larr(case):
     if op == "**":
         A = np.abs(A) + 0.5
     before = A.copy()
+    cont = case.get("L", "ndarray")
+    left = A if cont == "ndarray" else (A.tolist() if cont == "list" else (tuple(A.tolist()) if A.ndim == 1 else tuple(tuple(r_) for r_ in A.tolist())))
+    if cont != "ndarray":
+        c.feat(left=cont)
+        if op == "+" and isinstance(getattr(right, "data", None), list):
+            return c.out      # list + list-like object: Python's sequence concatenation protocol (UserList), not an arithmetic pairing
     try:
         with np.errstate(all="ignore"):
-            res = FN[op](A, right)
+            res = FN[op](left, right)
     except Exception:  # noqa  rejected
         return c.out
-    c.fail("ndarray%s %s %s/must_raise" % (sh, op, rk), "ndarray of shape %s %s %s returned %s instead of raising" % (shape, op, rk, _describe(res)))
+    c.fail("%s%s %s %s/must_raise" % (cont, sh, op, rk), "%s of shape %s %s %s returned %s instead of raising" % (cont, shape, op, rk, _describe(res)))
     c.eq("ndarray operand untouched", A, before, 0)
     return c.out
 
